@@ -24,6 +24,13 @@ Fixpoint uri_upto (stop : Z -> bool) (s : bytes) : bytes :=
   | c :: r => if stop c then [] else c :: uri_upto stop r
   end.
 
+(* the string from the first delimiter on *)
+Fixpoint uri_after (stop : Z -> bool) (s : bytes) : bytes :=
+  match s with
+  | [] => []
+  | c :: r => if stop c then s else uri_after stop r
+  end.
+
 (* ---- percent-decoding, RFC 3986 2.1: pct-encoded = "%" HEXDIG HEXDIG; decoded ONCE ---- *)
 Definition uri_hexval (c : Z) : Z :=
   if uri_isdigit c then c - 48 else if c <=? 70 then c - 55 else c - 87.
@@ -89,6 +96,47 @@ Fixpoint uri_rfc_resolve (segs : list bytes) (rstack : list bytes) : list bytes 
              else uri_rfc_resolve t (d :: rstack)
       end
   end.
+
+(* ---- RFC 3986 5.2.4 remove_dot_segments, transcribed literally on strings: input buffer [i],
+   output buffer [o]; one loop iteration per unit of fuel (every iteration shortens the input) ---- *)
+Fixpoint uri_starts (pat i : bytes) : bool :=
+  match pat, i with
+  | [], _ => true
+  | p :: pt, c :: r => (c =? p) && uri_starts pt r
+  | _ :: _, [] => false
+  end.
+
+(* "removing the last segment and its preceding "/" (if any) from the output buffer" *)
+Definition uri_rfc_remove_last (o : bytes) : bytes :=
+  rev (tl (uri_after uri_path_sep (rev o))).
+
+Fixpoint uri_rfc_rds (fuel : nat) (i o : bytes) : bytes :=
+  match fuel with
+  | O => o
+  | S f =>
+      match i with
+      | [] => o
+      | c :: r =>
+          if uri_starts [46; 46; 47] i then uri_rfc_rds f (drop 3 i) o              (* A "../" *)
+          else if uri_starts [46; 47] i then uri_rfc_rds f (drop 2 i) o             (* A "./"  *)
+          else if uri_starts [47; 46; 47] i then uri_rfc_rds f (drop 2 i) o         (* B "/./" -> "/" *)
+          else if uri_beq i [47; 46] then uri_rfc_rds f [47] o                      (* B "/."  -> "/" *)
+          else if uri_starts [47; 46; 46; 47] i
+               then uri_rfc_rds f (drop 3 i) (uri_rfc_remove_last o)                (* C "/../" -> "/" *)
+          else if uri_beq i [47; 46; 46]
+               then uri_rfc_rds f [47] (uri_rfc_remove_last o)                      (* C "/.." -> "/" *)
+          else if uri_beq i [46] || uri_beq i [46; 46] then o                       (* D *)
+          else uri_rfc_rds f (uri_after uri_path_sep r)
+                           (o ++ c :: uri_upto uri_path_sep r)                      (* E *)
+      end
+  end.
+
+Definition uri_rfc_remove_dot_segments (path : bytes) : bytes :=
+  uri_rfc_rds (S (length path)) path [].
+
+(* an absolute path written from its segments: "/" s1 "/" s2 ... *)
+Fixpoint uri_render (segs : list bytes) : bytes :=
+  match segs with [] => [] | s :: t => 47 :: s ++ uri_render t end.
 
 Definition uri_raw_path_segs (s : bytes) : list bytes :=
   uri_split_on uri_path_sep (uri_upto uri_path_stop s).
